@@ -488,6 +488,10 @@ int run_check(const std::string &prop, int tier, uint64_t master, int jobs) {
       Stats st;
       int viol = 0;
       bool capped = false;
+      // VERIF_HASHLOG=<prefix>: every worker logs "case-index history-hash" so that two runs with different worker counts (i.e. different
+      // sequences of simulated runs per process) can be compared case by case: ./check selftest-layout
+      FILE *hlog = nullptr;
+      if (const char *hl = getenv("VERIF_HASHLOG")) hlog = fopen((std::string(hl) + "." + sim::variant() + "." + std::to_string(w)).c_str(), "w");
       for (uint64_t i = w; i < N; i += jobs) {
         if (now_s() - t0 > wall_cap) { capped = true; break; }
         if (sh->nviol >= 4) { st.inc("stopped_early_after_violations"); break; }   // enough counterexamples: the tree is broken
@@ -498,6 +502,7 @@ int run_check(const std::string &prop, int tier, uint64_t master, int jobs) {
         Ctx ctx; ctx.st = &st; ctx.tier = tier;
         Verdict v = d->eval(c, ctx);
         st.inc("cases");
+        if (hlog) fprintf(hlog, "%llu %016llx %s\n", (unsigned long long)i, (unsigned long long)ctx.hash, v.ok() ? "ok" : v.cls.c_str());
         if (v.ok()) continue;
         // in-process determinism gate: same class and same history hash
         Ctx c2; c2.tier = tier;
@@ -528,6 +533,7 @@ int run_check(const std::string &prop, int tier, uint64_t master, int jobs) {
         if (++viol >= 3) break;
       }
       sh->cur_case[w] = ~0ull;
+      if (hlog) fclose(hlog);
       if (capped) st.inc("wall_capped_workers");
       st.save(std::string("build/tmp/stats-") + tag + "-" + std::to_string(w) + ".txt");
       sh->done[w] = 1;
